@@ -111,6 +111,7 @@ type oblig struct {
 	wantSat  bool // cover/vacuity obligations: expected NOT unsat
 	trivial  bool
 	baseline bool
+	alsoUnsat []string // other solvers that also answered unsat (thorough tier cross-check)
 	prebaked bool // verdict decided by the generator (structural / unmapped): not sent to a solver
 }
 
